@@ -493,6 +493,15 @@ func (g *gen) declareVars(c *Case) {
 					c.Meta[macc] = map[string]string{}
 				}
 				c.Meta[macc][key] = zeroPad(r, val)
+				if t != "string" && r.Intn(3) == 0 {
+					// the SAME metadata entry read by a second variable, of type string (any stored text is a string), declared just
+					// before this one: what an origin call yields is decided by the declared type of each variable, one by one
+					sname := fmt.Sprintf("s%c", 'a'+vi)
+					sval := J{"t": "str", "v": c.Meta[macc][key]}
+					c.VarVals[sname] = sval
+					c.Decls = append(c.Decls, J{"type": "string", "name": sname, "origin": J{"k": "call", "name": "meta", "args": jl(eAcct(macc), eStr(key))}})
+					g.vars = append(g.vars, J{"type": "string", "name": sname, "val": sval, "usable": true})
+				}
 			}
 		default:
 			c.RawVars[name] = zeroPad(r, val)
